@@ -969,6 +969,8 @@ package badger
 //@   ensures[bad-op] tc.Op != pb.ManifestChange_CREATE && tc.Op != pb.ManifestChange_DELETE ==> result != nil && unchanged(build.Tables) && build.Creations == old(build.Creations) && build.Deletions == old(build.Deletions)
 //@   ensures[others-untouched] forall id uint64 :: id != tc.Id ==> (id in build.Tables <==> old(id in build.Tables)) && build.Tables[id] == old(build.Tables[id])
 //@   ensures[levels-ok] levelsOK(build) && levelMapsOK(build) && len(build.Levels) >= old(len(build.Levels))
+//@   ensures[create-enters-level-set] tc.Op == pb.ManifestChange_CREATE && !old(tc.Id in build.Tables) ==> int(tc.Level) < len(build.Levels) && tc.Id in build.Levels[int(tc.Level)].Tables
+//@   ensures[delete-leaves-level-set] tc.Op == pb.ManifestChange_DELETE && old(tc.Id in build.Tables) ==> !(tc.Id in build.Levels[int(old(build.Tables[tc.Id].Level))].Tables)
 //@   assigns inferred
 //@   loop 1 invariant[grow] len(build.Levels) >= old(len(build.Levels)) && levelMapsOK(build) && tc.Id in build.Tables && build.Tables[tc.Id].Level == uint8(tc.Level) && build.Tables[tc.Id].KeyID == tc.KeyId && build.Tables[tc.Id].Compression == options.CompressionType(tc.Compression)
 //@   loop 1 invariant[others] forall id uint64 :: id != tc.Id ==> (id in build.Tables <==> old(id in build.Tables)) && build.Tables[id] == old(build.Tables[id])
@@ -1034,6 +1036,20 @@ package badger
 //@   assert[written-only-if-applied] before call Write : called(applyChangeSet#1) && ret(applyChangeSet#1) == nil
 //@   assert[rewrite-only-if-applied] before call rewrite : called(applyChangeSet#1) && ret(applyChangeSet#1) == nil
 //@   assert[synced-before-success] before return : result == nil && !old(mf.inMemory) ==> called(syncFunc#1) && result == ret(syncFunc#1)
+
+//@ func newDeleteChange
+//@   props C17
+//@   ensures[faithful] result != nil && fresh(result) && result.Id == id && result.Op == pb.ManifestChange_DELETE
+//@   assigns nothing
+
+// manifestFile.rewrite: the file handle and the counters are replaced together: after a rewrite
+// the creations counter is the number of tables and the deletions counter is zero (so the next
+// rewrite is not triggered by stale counts, and not suppressed either).
+//@ func (*manifestFile).rewrite
+//@   props C17
+//@   light
+//@   assert[rewrite-of-own-manifest] before call helpRewrite : arg0 == mf.directory && arg1 == &mf.manifest && arg2 == mf.externalMagic && called(Close#1) && ret(Close#1) == nil
+//@   assert[counters-restart] before return#3 : result == nil && mf.fp == ret0(helpRewrite#1) && mf.manifest.Creations == ret1(helpRewrite#1) && mf.manifest.Deletions == 0
 
 //@ func applyChangeSet
 //@   props C17
